@@ -1006,3 +1006,154 @@ Section PropFilter.
     eexists. split; reflexivity.
   Qed.
 End PropFilter.
+
+(** *** dictionaries are determined by their key order and their lookups *)
+Lemma dict_ext {V} (d d' : dict V) :
+  NoDup (dkeys d) -> dkeys d = dkeys d' -> (forall k, In k (dkeys d) -> dget d k = dget d' k) -> d = d'.
+Proof.
+  revert d'. induction d as [|[k v] d IH]; intros d' Hn Hk Hg.
+  - destruct d'; [reflexivity | discriminate Hk].
+  - destruct d' as [|[k' v'] d']; [discriminate Hk|]. cbn [dkeys map fst] in Hk. injection Hk as -> Hk.
+    inversion Hn as [|? ? Hx Hn']; subst.
+    pose proof (Hg k' (or_introl eq_refl)) as H0. cbn [dget] in H0. rewrite str_eqb_refl in H0. injection H0 as ->.
+    f_equal. apply IH; [exact Hn' | exact Hk|].
+    intros x Hx'. specialize (Hg x (or_intror Hx')). cbn [dget] in Hg.
+    assert (E : str_eqb x k' = false) by (apply str_eqb_neq; intros ->; apply Hx; exact Hx').
+    rewrite E in Hg. exact Hg.
+Qed.
+
+Lemma cdict_ext (d d' : cdict) :
+  NoDup (ckeys d) -> ckeys d = ckeys d' -> (forall k, In k (ckeys d) -> cget d k = cget d' k) -> d = d'.
+Proof.
+  revert d'. induction d as [|[k v] d IH]; intros d' Hn Hk Hg.
+  - destruct d'; [reflexivity | discriminate Hk].
+  - destruct d' as [|[k' v'] d']; [discriminate Hk|]. cbn [ckeys map fst] in Hk. injection Hk as -> Hk.
+    inversion Hn as [|? ? Hx Hn']; subst.
+    pose proof (Hg k' (or_introl eq_refl)) as H0. cbn [cget] in H0. rewrite ckey_eqb_refl in H0. subst v'.
+    f_equal. apply IH; [exact Hn' | exact Hk|].
+    intros x Hx'. specialize (Hg x (or_intror Hx')). cbn [cget] in Hg.
+    assert (E : ckey_eqb x k' = false) by (apply ckey_eqb_neq; intros ->; apply Hx; exact Hx').
+    rewrite E in Hg. exact Hg.
+Qed.
+
+Definition not_tau (tau p : str) : bool := negb (str_eqb p tau).
+
+Lemma not_tau_true tau p : not_tau tau p = true <-> p <> tau.
+Proof. unfold not_tau. rewrite negb_true_iff. apply str_eqb_neq. Qed.
+
+Lemma pdict_wf_inner (d : pdict) p m :
+  pdict_wf d -> dget d p = Some m ->
+  NoDup (dkeys m) /\ forall k cd, dget m k = Some cd -> NoDup (ckeys cd).
+Proof.
+  intros [_ H] Hg. apply dget_In in Hg. rewrite Forall_forall in H. destruct (H _ Hg) as [A B]. cbn [snd] in *.
+  split; [exact A|]. intros k cd Hk. apply dget_In in Hk. rewrite Forall_forall in B. apply (B _ Hk).
+Qed.
+
+(** two well-formed class-feature dictionaries with, outside [tau], the same
+    key orders at the three levels and the same numbers, have the same part
+    outside [tau] *)
+Lemma pdict_filter_eq tau (d d' : pdict) :
+  pdict_wf d -> pdict_wf d' ->
+  filter (not_tau tau) (dkeys d) = filter (not_tau tau) (dkeys d') ->
+  (forall p, p <> tau -> dkeys (psub d p) = dkeys (psub d' p)) ->
+  (forall p k, p <> tau -> ckeys (csub (psub d p) k) = ckeys (csub (psub d' p) k)) ->
+  (forall p k card, p <> tau -> plook d p k card = plook d' p k card) ->
+  dfilter (not_tau tau) d = dfilter (not_tau tau) d'.
+Proof.
+  intros W W' K1 K2 K3 K4. apply dict_ext.
+  - rewrite dkeys_dfilter. apply List.NoDup_filter. apply W.
+  - rewrite !dkeys_dfilter. exact K1.
+  - intros p Hp. rewrite dkeys_dfilter in Hp. pose proof Hp as Hp'. rewrite K1 in Hp'.
+    apply filter_In in Hp, Hp'. destruct Hp as [Hin Hq]. destruct Hp' as [Hin' _].
+    rewrite !dget_dfilter, Hq. apply not_tau_true in Hq.
+    apply In_dkeys_dget in Hin, Hin'. destruct Hin as [m [Hm _]]. destruct Hin' as [m' [Hm' _]].
+    rewrite Hm, Hm'. f_equal.
+    destruct (pdict_wf_inner d p m W Hm) as [N1 N2]. destruct (pdict_wf_inner d' p m' W' Hm') as [N1' N2'].
+    pose proof (K2 p Hq) as Ek. unfold psub in Ek. rewrite Hm, Hm' in Ek.
+    apply dict_ext; [exact N1 | exact Ek|].
+    intros k Hk. pose proof Hk as Hk'. rewrite Ek in Hk'.
+    apply In_dkeys_dget in Hk, Hk'. destruct Hk as [cd [Hcd _]]. destruct Hk' as [cd' [Hcd' _]].
+    rewrite Hcd, Hcd'. f_equal.
+    pose proof (K3 p k Hq) as Ec. unfold psub, csub in Ec. rewrite Hm, Hm', Hcd, Hcd' in Ec.
+    apply cdict_ext; [apply (N2 k cd Hcd) | exact Ec|].
+    intros card _. pose proof (K4 p k card Hq) as El. unfold plook in El. rewrite Hm, Hm', Hcd, Hcd' in El. exact El.
+Qed.
+
+(** *** the key orders of the inverse features are those of the direct
+    features of the reversed graph *)
+Lemma filter_first_occ (f : str -> bool) l : filter f (first_occ l) = first_occ (filter f l).
+Proof. rewrite <- !first_occ_fold, filter_fold_add_new. reflexivity. Qed.
+
+Lemma filter_concat {A} (f : A -> bool) ls : filter f (List.concat ls) = List.concat (map (filter f) ls).
+Proof. induction ls as [|l ls IH]; [reflexivity|]. cbn [List.concat map]. rewrite filter_app, IH. reflexivity. Qed.
+
+Lemma pseq_reverse tau g i :
+  filter (not_tau tau) (map tp (filter (fun t => touches Direct t i) (reverse_nonliteral tau g))) =
+  filter (not_tau tau) (map tp (filter (fun t => touches Inverse t i) g)).
+Proof.
+  induction g as [|t g IH]; [reflexivity|]. unfold reverse_nonliteral in *. cbn [flat_map].
+  rewrite filter_app, map_app, filter_app, IH.
+  assert (ER : forall (f : triple -> bool), filter f (t :: g) = (if f t then [t] else []) ++ filter f g).
+  { intros f. cbn [filter]. destruct (f t); reflexivity. }
+  rewrite ER, map_app, filter_app. f_equal. unfold reverse_triple.
+  destruct (str_eqb (tp t) tau) eqn:Et.
+  - assert (E : forall b : bool, filter (not_tau tau) (map tp (if b then [t] else [])) = []).
+    { intros [|]; [|reflexivity]. cbn. unfold not_tau. rewrite Et. reflexivity. }
+    rewrite E. cbn [filter]. apply E.
+  - destruct t as [s p o]. cbn [tp ts to] in *. destruct o as [o|l dt]; [|reflexivity].
+    cbn [filter touches ts to tp]. destruct (str_eqb (nid o) i); reflexivity.
+Qed.
+
+Lemma class_props_reverse tau I g c :
+  filter (not_tau tau) (class_props Direct I (reverse_nonliteral tau g) c) =
+  filter (not_tau tau) (class_props Inverse I g c).
+Proof.
+  unfold class_props. rewrite !uniq_first_first_occ, !filter_first_occ, !filter_concat, !map_map. f_equal. f_equal.
+  apply map_ext. intros [i cs]. cbn [fst snd]. destruct (mem_str c cs); [|reflexivity].
+  unfold inst_props. rewrite !uniq_first_first_occ, !filter_first_occ. f_equal. apply pseq_reverse.
+Qed.
+
+Lemma class_type_keys_reverse tau I g c p :
+  p <> tau -> iri_nodes tau g ->
+  class_type_keys Direct tau I (reverse_nonliteral tau g) c p = class_type_keys Inverse tau I g c p.
+Proof.
+  intros Hp Hg. apply str_eqb_neq in Hp. unfold class_type_keys. f_equal. f_equal. apply map_ext. intros [i cs].
+  cbn [fst snd]. destruct (mem_str c cs); [|reflexivity]. unfold inst_keys. f_equal.
+  apply concat_contrib_reverse; assumption.
+Qed.
+
+Lemma class_cards_reverse tau I g c p k :
+  p <> tau -> iri_nodes tau g ->
+  class_cards Direct tau I (reverse_nonliteral tau g) c p k = class_cards Inverse tau I g c p k.
+Proof.
+  intros Hp Hg. unfold class_cards. f_equal. f_equal. apply map_ext. intros [i cs]. cbn [fst snd].
+  rewrite (cnt_inverse_is_reverse tau I g i p k Hp Hg). reflexivity.
+Qed.
+
+(** *** A3, strong form: outside [tau] the inverse part of the class entry of
+    the run on [g] IS the direct part of the class entry of the run on the
+    reversed graph (same keys in the same order, same numbers) *)
+Theorem raw_profile_inverse_is_reverse_eq cfg (I : insts) g ID P1 C0 ID' P1' C0' :
+  NoDup (dkeys I) -> iri_nodes (p_tau cfg) g ->
+  annotate_all (p_tau cfg) true g (adapt I) = inl ID ->
+  raw_profile (set_inverse cfg true) I ID = (P1, C0) ->
+  annotate_all (p_tau cfg) false (reverse_nonliteral (p_tau cfg) g) (adapt I) = inl ID' ->
+  raw_profile (set_inverse cfg false) I ID' = (P1', C0') ->
+  forall c e e', dget P1 c = Some e -> dget P1' c = Some e' ->
+    dfilter (not_tau (p_tau cfg)) (c_inverse e) = dfilter (not_tau (p_tau cfg)) (c_direct e').
+Proof.
+  intros Hn Hg HA HR HA' HR' c e e' He He'.
+  pose proof (cprofile_wf_dget _ _ _ (raw_profile_wf _ _ _ _ _ HR) He) as (_ & _ & W & _).
+  pose proof (cprofile_wf_dget _ _ _ (raw_profile_wf _ _ _ _ _ HR') He') as (W' & _).
+  destruct (profile_order_char (set_inverse cfg true) I g ID P1 C0 Hn HA HR c e He) as (_ & _ & _ & O).
+  destruct (O eq_refl) as (O1 & O2 & O3).
+  destruct (profile_order_char (set_inverse cfg false) I _ ID' P1' C0' Hn HA' HR' c e' He') as (O1' & O2' & O3' & _).
+  destruct (raw_profile_inverse_is_reverse cfg I g ID P1 C0 ID' P1' C0' Hn Hg HA HR HA' HR') as (_ & _ & E3).
+  destruct (E3 c e He) as (e'' & He'' & EL). assert (e'' = e') by congruence. subst e''.
+  cbn [set_inverse p_tau] in *.
+  apply pdict_filter_eq; [exact W | exact W' | | | |].
+  - rewrite O1, O1'. symmetry. apply class_props_reverse.
+  - intros p Hp. rewrite O2, O2'. symmetry. apply class_type_keys_reverse; assumption.
+  - intros p k Hp. rewrite O3, O3'. symmetry. apply class_cards_reverse; assumption.
+  - intros p k card Hp. apply (proj1 (EL p Hp)).
+Qed.
